@@ -7,6 +7,7 @@ package main
 import (
 	"encoding/json"
 	"fmt"
+	"os"
 	"go/types"
 	"net"
 	"reflect"
@@ -372,6 +373,33 @@ func vpLeaks(e *Engine, st *State, fn *ssa.Function, a []Value, s ssa.Instructio
 		}
 	}
 	expand(a[0])
+	// bytes copied out of an opaque formatted string (re-encoded, re-decoded, sliced) still
+	// stand for everything that string was built from
+	doneFmt := map[string]bool{}
+	for changed := true; changed; {
+		changed = false
+		seenT := map[int]bool{}
+		var walk func(t *Term)
+		walk = func(t *Term) {
+			if seenT[t.id] {
+				return
+			}
+			seenT[t.id] = true
+			if t.op == OpSelect && !doneFmt[t.name] {
+				if fd, ok := e.fmtDeps[t.name]; ok {
+					doneFmt[t.name] = true
+					deps = append(deps, fd...)
+					changed = true
+				}
+			}
+			for _, x := range t.args {
+				walk(x)
+			}
+		}
+		for _, d := range append([]*Term(nil), deps...) {
+			walk(d)
+		}
+	}
 	have := map[int]bool{}
 	seen2 := map[int]bool{}
 	for _, d := range deps {
@@ -388,6 +416,9 @@ func vpLeaks(e *Engine, st *State, fn *ssa.Function, a []Value, s ssa.Instructio
 			syntactic = true
 			break
 		}
+	}
+	if os.Getenv("VP_LEAKDBG") != "" {
+		fmt.Printf("vpLeaks: value=%s deps=%d want=%d syntactic=%v\n", describe(a[0]), len(deps), len(want), syntactic)
 	}
 	if !syntactic {
 		return one(st, e.tm.False)
@@ -425,6 +456,9 @@ func vpLeaks(e *Engine, st *State, fn *ssa.Function, a []Value, s ssa.Instructio
 		}
 	}
 	if len(diffs) == 0 {
+		if os.Getenv("VP_LEAKDBG") != "" {
+			fmt.Printf("vpLeaks: no diffs names=%v\n", names)
+		}
 		return one(st, e.tm.False)
 	}
 	e.sync(st.pc)
@@ -440,6 +474,9 @@ func vpLeaks(e *Engine, st *State, fn *ssa.Function, a []Value, s ssa.Instructio
 	e.solver.Pop()
 	if r == Unknown {
 		e.rep.Unknowns++
+	}
+	if os.Getenv("VP_LEAKDBG") != "" {
+		fmt.Printf("vpLeaks: semantic diffs=%d names=%d result=%v\n", len(diffs), len(names), r)
 	}
 	return one(st, e.tm.Bool(r != Unsat))
 }
